@@ -351,6 +351,11 @@ def step (st : St) (line : String) : St × String :=
   -- `*_poke`: the caller mutates every object the file handed out (entry tuples / attribute dicts,
   -- field content lists and subfield dicts, score arrays) and every object it passed in before;
   -- the model's values are immutable, i.e. the specification is "nothing changes".
+  -- `*_copy`: continue on `file.copy()` (the copy must be an equal, independent file object)
+  | ["gff_copy"] => match st with | .gff g => (st, showGff g) | _ => bad
+  | ["gb_copy"] => match st with | .gb g => (st, showGb g) | _ => bad
+  | ["fq_copy"] => match st with | .fq f => (st, showFq f) | _ => bad
+  | ["fa_copy"] => match st with | .fa f => (st, showFa f) | _ => bad
   | ["gff_poke"] => match st with | .gff g => (st, showGff g) | _ => bad
   | ["gb_poke"] => match st with | .gb g => (st, showGb g) | _ => bad
   | ["fq_poke"] => match st with | .fq f => (st, showFq f) | _ => bad
